@@ -21,6 +21,10 @@ func (authentication *Authentication) Marshal() ([]byte, error) {
 }
 
 func (authentication *Authentication) Unmarshal(b []byte) error {
+	if len(b) == 0 {
+		return errors.Errorf("Authentication: No sufficient bytes to decode next authentication")
+	}
+
 	if len(b) > 0 {
 		// bounds checking
 		if len(b) <= 4 {
